@@ -205,6 +205,14 @@ fn gen_knobs(r: &mut Rng, scenario: &str) -> Knobs {
             k.cap = *r.pick(&[1u64, 2, 3]);
             k.snap_threshold = 1000;
         }
+        "staletail" => {
+            // a deposed leader must come back with a long uncommitted tail behind a small cap
+            k.cap = *r.pick(&[1u64, 2, 3]);
+            k.snap_threshold = 1000;
+            k.general_timeout_ms = 1000;
+            k.max_pending_writes = 10_000;
+            k.default_policy = 1;
+        }
         "deadline" => {
             k.general_timeout_ms = *r.pick(&[50u64, 100, 200]);
         }
@@ -237,6 +245,12 @@ fn gen_clients(r: &mut Rng, n_clients: u32, n_nodes: u32, horizon: u64, keys: u8
                     70..=91 => OpKind::ReadLease,
                     92..=95 => OpKind::ReadDefault,
                     _ => OpKind::ReadEventual,
+                },
+                "staletail" => match roll {
+                    0..=74 => OpKind::Put,
+                    75..=84 => OpKind::Cas(r.below(3) as u8),
+                    85..=89 => OpKind::Delete,
+                    _ => OpKind::ReadLin,
                 },
                 "routing" => match roll {
                     0..=19 => OpKind::Put,
@@ -320,6 +334,11 @@ fn gen_faults(r: &mut Rng, scenario: &str, horizon: u64, n_voters: u32, masked: 
                 80..=86 => Fault::FullRestart { at, down_ms: r.range(50, 1000) },
                 _ => Fault::BreakStreams { at, a: NodeSel::Leader, b: sel_follower(r) },
             },
+            "staletail" => match roll {
+                0..=69 => Fault::Partition { at, dur: r.range(1500, 5000), side: vec![NodeSel::Leader] },
+                70..=84 => Fault::OneWay { at, dur: r.range(1500, 4000), node: NodeSel::Leader, outbound: true },
+                _ => Fault::Crash { at, node: sel_follower(r), power_loss: false, down_ms: r.range(200, 2000) },
+            },
             "lag" => match roll {
                 0..=49 => Fault::Partition { at, dur: r.range(500, 5000), side: vec![sel_follower(r)] },
                 50..=69 => Fault::Crash { at, node: sel_follower(r), power_loss: false, down_ms: r.range(500, 4000) },
@@ -362,7 +381,7 @@ fn gen_faults(r: &mut Rng, scenario: &str, horizon: u64, n_voters: u32, masked: 
 }
 
 pub const SCENARIOS: &[&str] =
-    &["general", "calm", "election", "lease", "durability", "lag", "snapshot", "deadline", "membership", "routing"];
+    &["staletail", "general", "calm", "election", "lease", "durability", "lag", "snapshot", "deadline", "membership", "routing"];
 
 pub fn gen_plan(seed: u64, scenario: &str, masked: &[String]) -> Plan {
     let mut r = Rng::new(seed ^ 0xC1u64.rotate_left(40));
